@@ -608,6 +608,15 @@ fn generate(rng: &mut Rng, tier: &str, w: &mut CaseWriter) {
         push_pr(w, &refs, &s, b"q\t+4\tchr2\t007\t255\t+3M-2I\t*\t0\t0\t*\t*\tXX:i:-0\tXY:i:4294967295\tXZ:i:4294967296\n");
         push_pr(w, &refs, &s, b"q\t4\tchr2\t7\t255\t3M\tchr2\t0\t0\t*\t*\tXX:B:C\tXY:B:s,-1,+2\tXW:H:\tXV:Z:\n");
         push_pr(w, &refs, &s, b"q\t4\t*\t7\t255\t*\t=\t0\t0\t*\t*\tXX:A:!\tXX:A:!\n");
+        // lazy record type on fixed lines (empty arrays in every position, every subtype)
+        for l in [
+            &b"r\t4\t*\t0\t255\t*\t*\t0\t0\t*\t*\tXA:B:c\tXB:i:1\n"[..],
+            &b"r\t4\t*\t0\t255\t*\t*\t0\t0\t*\t*\tXB:i:1\tXA:B:c\n"[..],
+            &b"r\t4\t*\t0\t255\t*\t*\t0\t0\t*\t*\tXA:B:c\tXC:B:C\tXs:B:s\tXS:B:S\tXi:B:i\tXI:B:I\tXf:B:f\tXZ:Z:\tXH:H:\n"[..],
+            &b"r\t99\tchr1\t5\t7\t3M\t=\t9\t-7\tACG\t!~*\tXf:B:f,1.5,-0\tXA:B:c\tXB:B:c,-128,127\n"[..],
+        ] {
+            w.push("lz", vec![enc_refs(&refs), hex(l)]);
+        }
     }
     for _ in 0..n_rt {
         let seed = rng.next();
@@ -645,6 +654,68 @@ fn generate(rng: &mut Rng, tier: &str, w: &mut CaseWriter) {
         };
         let line = if mutate { mutate_line(rng, &line) } else { line };
         push_pr(w, &refs, &s, &line);
+    }
+    // header text, modelled: written header (wh), parsed pristine / mutated / duplicated-tag text (ph)
+    let (n_wh, n_ph) = if thorough { (5000, 9000) } else { (400, 700) };
+    for t in [
+        &b"@HD\tVN:1.5\tSO:a\tSO:b\n@SQ\tSN:x\tLN:5\tLN:6\tAH:1\tAH:2\n"[..],
+        &b"@HD\tVN:1.6\tSO:a\tSO:b\n"[..],
+        &b"@HD\tSO:a\tVN:x\tVN:1.0\n@RG\tID:a\tID:b\n"[..],
+        &b"@SQ\tSN:x\tLN:+5\n@SQ\tSN:y\tLN:5x\n"[..],
+        &b"@SQ\tSN:x\tLN:5\r\n@CO\t\r\n@CO\n"[..],
+        &b"@CO\ta\tb\nr1\t4\n@CO\tlate\n"[..],
+        &b"@SQ\tSN:x\tLN:5\n@SQ\tSN:x\tLN:6\n"[..],
+        &b"@HD\tVN:01.+6\n@PG\tID:p\n@HD\tVN:1.6\n"[..],
+        &b"@CO\tx\n@HD\tVN:1.0\n"[..],
+        &b"@HD\tVN:1.6"[..],
+        &b"@SQ\tSN:a\tLN:0\n"[..],
+        &b"@SQ\tLN:1\n"[..],
+        &b"@RG\n"[..],
+        &b"@XX\tID:a\n"[..],
+        &b"@HD\tVN:0.9\tVN:1.7\tzz:1\tzz:2\n@RG\tID:r\tDS:1\tDS:2\n"[..],
+    ] {
+        w.push("ph", vec![hex(t)]);
+    }
+    for _ in 0..n_wh {
+        let (h, _) = gen_header(rng, true);
+        w.push("wh", enc_header(&h));
+    }
+    for _ in 0..n_ph {
+        let (h, _) = gen_header(rng, true);
+        let text = match guarded(|| sam_write_header(&h)) {
+            Outcome::Done(Ok(t)) => t,
+            _ => continue,
+        };
+        let text = match rng.below(4) {
+            0 => text,
+            1 => {
+                // duplicate one field of one line (exercises Context::allow_duplicate_tags)
+                let mut lines: Vec<Vec<u8>> = text.split(|b| *b == b'\n').map(|l| l.to_vec()).collect();
+                lines.pop();
+                if !lines.is_empty() {
+                    let i = rng.below(lines.len() as u64) as usize;
+                    let fields: Vec<Vec<u8>> = lines[i].split(|b| *b == b'\t').map(|f| f.to_vec()).collect();
+                    if fields.len() > 1 {
+                        let k = rng.range(1, fields.len() as u64 - 1) as usize;
+                        let mut dup = fields[k].clone();
+                        if rng.chance(1, 2) && dup.len() > 3 {
+                            dup.truncate(3);
+                            dup.extend_from_slice(b"dup");
+                        }
+                        lines[i].push(b'\t');
+                        lines[i].extend_from_slice(&dup);
+                    }
+                }
+                let mut t = Vec::new();
+                for l in lines {
+                    t.extend_from_slice(&l);
+                    t.push(b'\n');
+                }
+                t
+            }
+            _ => mutate_line(rng, &text),
+        };
+        w.push("ph", vec![hex(&text)]);
     }
     // float oracle hypothesis: boundary-dense windows (quick) / all 2^32 patterns (thorough)
     if thorough {
